@@ -41,7 +41,7 @@ def run(prog, rep, tier):
     # the levels of a grouping factor are those of a categorical term: sorted unless the data declares an order
     # (C04's R4.3, reported here as R5.2)
     from . import C04
-    sub = type(rep)(rep.prop)
+    sub = rep.sub()
     C04.r4_3(prog, sub)
     for it in sub.items:
         it = dict(it)
